@@ -304,7 +304,7 @@ def r3(run):
 def r4(run):
     b = None
     for x in run.facts.bodies_under("xs::handlers::handler::Handler::process_frame"):
-        if q.live_calls(x, C.APPEND):
+        if C.append_sites(run.facts, x):
             b = x
     if b is None:
         run.missing("xs::handlers::handler::Handler::process_frame|append", "process_frame does not append output frames")
@@ -324,7 +324,7 @@ def r4(run):
                 root = r2 if r2 is not None else root
             writes.append((bi, root, org, sp))
     run.floor("writes to <output frame>.context_id in process_frame", len(writes), 1, b.sp)
-    for c in q.live_calls(b, C.APPEND):
+    for c in C.append_sites(run.facts, b):
         l = q.root_local(b, c.args[1])
         good = [w for w in writes if w[1] == l and all(o.startswith("field:") and "self" in o for o in w[2])]
         ok = bool(good) and q.dominated(b, c.bb, via_blocks=[w[0] for w in good])
